@@ -330,6 +330,8 @@ package broker
 //@   at call 1 Subscribe assert [suback] suback != nil && suback.ID == pkt.ID && len(suback.ReturnCodes) == len(pkt.Subscriptions) && forall i int {suback.ReturnCodes[i]} :: 0 <= i && i < len(pkt.Subscriptions) ==> suback.ReturnCodes[i] == pkt.Subscriptions[i].QOS
 //@ func (c *Client) processSubscribe$1()
 //@   requires [captured] *c != nil && *suback != nil
+//@   ensures [queued-once] nqueued <= old(nqueued) + 1 && (nqueued == old(nqueued) + 1 ==> lastqueued == *suback)
+//@   modifies nqueued, lastqueued
 //@ func (c *Client) processSubscribe$1$1()
 //@   requires [captured] *c != nil && *suback != nil
 //@   ensures [queued-suback] nqueued <= old(nqueued) + 1 && (nqueued == old(nqueued) + 1 ==> lastqueued == *suback)
@@ -343,6 +345,8 @@ package broker
 //@   at call 1 Unsubscribe assert [unsuback] unsuback != nil && unsuback.ID == pkt.ID
 //@ func (c *Client) processUnsubscribe$1()
 //@   requires [captured] *c != nil && *unsuback != nil
+//@   ensures [queued-once] nqueued <= old(nqueued) + 1 && (nqueued == old(nqueued) + 1 ==> lastqueued == *unsuback)
+//@   modifies nqueued, lastqueued
 //@ func (c *Client) processUnsubscribe$1$1()
 //@   requires [captured] *c != nil && *unsuback != nil
 //@   ensures [queued-unsuback] nqueued <= old(nqueued) + 1 && (nqueued == old(nqueued) + 1 ==> lastqueued == *unsuback)
@@ -350,12 +354,16 @@ package broker
 //
 //@ func (c *Client) processPublish$1()
 //@   requires [captured] *c != nil && client_ok(*c) && *puback != nil && *publish != nil
+//@   ensures [queued-once] nqueued <= old(nqueued) + 1 && (nqueued == old(nqueued) + 1 ==> lastqueued == *puback)
+//@   modifies nqueued, lastqueued
 //@ func (c *Client) processPublish$1$1()
 //@   requires [captured] *c != nil && client_ok(*c) && *puback != nil && *publish != nil
 //@   ensures [queued-puback] nqueued <= old(nqueued) + 1 && (nqueued == old(nqueued) + 1 ==> lastqueued == *puback)
 //@   modifies nqueued, lastqueued
 //@ func (c *Client) processPubrel$1()
 //@   requires [captured] *c != nil && client_ok(*c) && *pubcomp != nil && *publish != nil
+//@   ensures [queued-once] nqueued <= old(nqueued) + 1 && (nqueued == old(nqueued) + 1 ==> lastqueued == *pubcomp)
+//@   modifies nqueued, lastqueued
 //@ func (c *Client) processPubrel$1$1()
 //@   requires [captured] *c != nil && client_ok(*c) && *pubcomp != nil && *publish != nil
 //@   ensures [queued-pubcomp] nqueued <= old(nqueued) + 1 && (nqueued == old(nqueued) + 1 ==> lastqueued == *pubcomp)
